@@ -78,6 +78,39 @@ fn lib_read(w: &Schema, r: &Schema, bytes: &[u8]) -> Result<Value, String> {
     }
 }
 
+/// A record that requires itself (a field whose type is a reference to an enclosing record, outside any
+/// union, array or map): no finite value conforms to it.
+fn bottomless(j: &J, enclosing: &mut Vec<String>) -> bool {
+    match j {
+        J::String(s) => enclosing.iter().any(|n| n == s || n.rsplit('.').next() == Some(s.as_str())),
+        J::Object(o) if o.get("type").and_then(|t| t.as_str()) == Some("record") => {
+            enclosing.push(o.get("name").and_then(|n| n.as_str()).unwrap_or("").to_string());
+            let r = o.get("fields").and_then(|f| f.as_array()).is_some_and(|fs| fs.iter().any(|f| f.get("type").is_some_and(|t| bottomless(t, enclosing))));
+            enclosing.pop();
+            r
+        }
+        _ => false,
+    }
+}
+
+/// One value written to a container file with the writer schema and read back with the reader schema.
+fn container_read(w: &Schema, r: &Schema, v: &Value) -> Result<Value, String> {
+    match guarded(|| -> Result<Value, String> {
+        let mut wr = apache_avro::Writer::new(w, Vec::new()).map_err(|e| format!("harness: writer: {e}"))?;
+        wr.append_value_ref(v).map_err(|e| format!("harness: append: {e}"))?;
+        let bytes = wr.into_inner().map_err(|e| format!("harness: finish: {e}"))?;
+        let mut rd = apache_avro::Reader::builder(&bytes[..]).reader_schema(r).build().map_err(|e| format!("error: {e}"))?;
+        match rd.next() {
+            Some(Ok(x)) => Ok(x),
+            Some(Err(e)) => Err(format!("error: {e}")),
+            None => Err("error: no value in the file".into()),
+        }
+    }) {
+        Ok(x) => x,
+        Err(p) => Err(format!("panic: {p}")),
+    }
+}
+
 struct Parsed {
     ws: S,
     wenv: Env,
@@ -276,6 +309,27 @@ pub fn run_c08(tier: Tier, replay: Option<&J>) -> i32 {
                         (Err(_), Err(_)) => {}
                         (Ok(_), Err(_)) => problem = Some(("lib-err-spec-value", "the rules prescribe a value but the library returned an error".into())),
                         (Err(_), Ok(_)) => problem = Some(("lib-ok-spec-none", "the rules give no result but the library returned a value".into())),
+                    }
+                }
+                // third path: the same value through a container file read with the reader schema must end
+                // like the datum reader did (same value, or an error on both)
+                // (a reader record that requires itself - the recursive base with its union unwrapped - has
+                // no finite value; it is left to the datum path so that a decoder that recurses on it cannot
+                // take the whole check down with a stack overflow)
+                let bottomless_reader = bottomless(&p.r, &mut vec![]);
+                if problem.is_none() && !bottomless_reader {
+                    st.transitions += 1;
+                    if std::env::var("VERIF_C08_TRACE").is_ok() {
+                        eprintln!("TRACE pair {} value {} W {} R {}", p.idx, vi, p.w, p.r);
+                    }
+                    let got3 = container_read(&pp.wl, &pp.rl, &to_lib(v, &pp.ws, &pp.wenv));
+                    let agree = match (&got, &got3) {
+                        (Ok(a), Ok(b)) => value_eq(a, b),
+                        (Err(_), Err(e)) => !e.starts_with("panic") && !e.starts_with("harness"),
+                        _ => false,
+                    };
+                    if !agree {
+                        problem = Some(("paths-differ", format!("the container Reader with a reader schema ends differently from the datum reader: {}", ev::trunc(&format!("{got3:?}"), 200))));
                     }
                 }
                 match problem {
